@@ -1403,12 +1403,13 @@ func (client *client) pollInflights() (cont bool, err error) {
 }
 
 func (client *client) pollNewMessages(ids []packets.PacketID) (unused []packets.PacketID, err error) {
-	now := time.Now()
 	var elems []*queue.Elem
 	elems, err = client.queueStore.Read(ids)
 	if err != nil {
 		return nil, err
 	}
+	// Read may have blocked: the waiting time of the messages is measured from now
+	now := time.Now()
 	for _, v := range elems {
 		switch m := v.MessageWithID.(type) {
 		case *queue.Publish:
@@ -1416,8 +1417,12 @@ func (client *client) pollNewMessages(ids []packets.PacketID) (unused []packets.
 				ids = ids[1:]
 			}
 			if client.version == packets.Version5 && m.Message.MessageExpiry != 0 {
-				d := uint32(now.Sub(v.At).Seconds())
-				m.Message.MessageExpiry = d
+				// the received value minus the time the message has been waiting in the server [MQTT-3.3.2-6]
+				if d := uint32(now.Sub(v.At).Seconds()); d < m.Message.MessageExpiry {
+					m.Message.MessageExpiry -= d
+				} else {
+					m.Message.MessageExpiry = 1
+				}
 			}
 			client.write(gmqtt.MessageToPublish(m.Message, client.version))
 		case *queue.Pubrel:
